@@ -24,6 +24,7 @@ import (
 	"time"
 
 	"github.com/LemoFoundationLtd/lemochain-core/chain/account"
+	"github.com/LemoFoundationLtd/lemochain-core/chain/params"
 	"github.com/LemoFoundationLtd/lemochain-core/chain/types"
 	"github.com/LemoFoundationLtd/lemochain-core/common"
 	"github.com/LemoFoundationLtd/lemochain-core/common/rlp"
@@ -42,6 +43,9 @@ type Step struct {
 	Height uint32
 	Hash   string
 	Sigs   []string `json:",omitempty"`
+	// Refused: a block the never-stopped node refused (it replays a transaction of an earlier block); a restarted
+	// node must refuse it too
+	Refused bool `json:",omitempty"`
 }
 
 type Plan struct {
@@ -112,6 +116,9 @@ func makePlan(seed uint64, variant int) *Plan {
 			cands = cl.G.Setup2(t)
 		default:
 			cands = cl.G.Next(t, cl.Head.Height()+1, r.Range(3, 7))
+			if bi >= 3 && r.Chance(1, 4) {
+				cands = nil // empty blocks belong to a chain too
+			}
 		}
 		// a side block on the same parent (pruned when the main chain stabilises)
 		if bi >= 2 && r.Chance(1, 3) {
@@ -136,6 +143,36 @@ func makePlan(seed uint64, variant int) *Plan {
 				break
 			}
 			pending = nil
+		}
+	}
+	// blocks on the final head that replay a transaction of an earlier block (produced by the miner path, which packages
+	// what it is given): the never-stopped node refuses them because of its replay guard
+	{
+		var old []*types.Transaction
+		for _, b := range cl.Chain {
+			if b.Height() < 3 {
+				continue
+			}
+			for _, tx := range b.Txs {
+				if tx.Type() == params.OrdinaryTx && len(tx.Data()) == 0 {
+					old = append(old, tx)
+				}
+			}
+		}
+		for k := 0; k < 3 && len(old) > 0; k++ {
+			tx := old[r.Intn(len(old))]
+			at := cl.Head.Time() + uint32(k+1)*uint32(cl.W.SlotMs/1000)
+			if tx.Expiration() < uint64(at) {
+				continue
+			}
+			res, err := P.Mine(cl.Head, at, types.Transactions{fx.WireTx(tx)}, fmt.Sprintf("replay%d", k))
+			if err != nil || len(res.Block.Txs) != 1 {
+				continue
+			}
+			if P.Insert(res.Block, true) == nil {
+				continue // (would be C04's subject)
+			}
+			p.Steps = append(p.Steps, Step{Kind: "block", Block: encBlock(fx.Wire(res.Block, false)), Height: res.Block.Height(), Hash: res.Block.Hash().Hex(), Refused: true})
 		}
 	}
 	p.U = cl.G.U.Export()
@@ -426,10 +463,19 @@ func childRecover(args []string) {
 		if s.Kind == "block" {
 			n.WaitQueue()
 		}
+		if os.Getenv("C08_DEBUG_STDERR") != "" {
+			fmt.Fprintf(os.Stderr, "STEP kind=%s h=%d main=%v refused=%v hash=%s stable=%d head=%d\n", s.Kind, s.Height, s.Main, s.Refused, s.Hash[:10], n.BC.StableBlock().Height(), n.BC.CurrentBlock().Height())
+		}
 		err := applyStep(n, s)
 		if s.Kind == "block" && s.Main && err != nil && s.Height > st.Height() && !n.BC.HasBlock(common.HexToHash(s.Hash)) {
 			v("restarted-node-rejects-block", fmt.Sprintf("main-chain block %d rejected after recovery at stable %d: %v", s.Height, st.Height(), err))
 			break
+		}
+		if s.Refused {
+			stats["refused_blocks_offered_to_the_restarted_node"]++
+			if err == nil || n.BC.HasBlock(common.HexToHash(s.Hash)) {
+				v("restarted-node-accepts-block-the-never-stopped-node-refused", fmt.Sprintf("block %d (replays a transaction of an earlier block) was refused by the node that never stopped and accepted after recovery at stable %d", s.Height, st.Height()))
+			}
 		}
 	}
 	if got := n.BC.StableBlock().Hash().Hex(); got != p.FinalStable {
@@ -612,6 +658,9 @@ func supervise(c *run.Ctx, planPath string, p *Plan, pt point, dir string) {
 		if _, err := os.Stat(out + ".stage2"); err == nil {
 			c.Violation("C08/restart-after-clean-recovery:reopen-panics:"+reopenClass(se), fmt.Sprintf("recovery after a crash at %s looked clean, the rest of the history was played, but the next clean restart dies: %s", pt.Spec, firstLines(se, 3)), wit)
 			return
+		}
+		if f := os.Getenv("C08_DEBUG_STDERR"); f != "" {
+			_ = ioutil.WriteFile(f, []byte(se), 0644)
 		}
 		c.Violation("C08/reopen-panics:"+reopenClass(se)+":"+sc, fmt.Sprintf("database does not open / recover after a crash at %s: %s", pt.Spec, firstLines(se, 3)), wit)
 		return
